@@ -159,6 +159,13 @@ func (x *Exec) checkFrame(st *State, fr *Frame, c *Contract, at string) {
 			mapsAll = true
 		}
 	}
+	for k, refs := range st.interfered {
+		if strings.HasPrefix(k, "elem:") {
+			elemsAllowed[k] = append(elemsAllowed[k], refs...)
+		} else {
+			allowed[k] = append(allowed[k], refs...)
+		}
+	}
 	st.declareOnce("is_fresh", "(declare-fun is_fresh (Ref) Int)")
 	for _, k := range sortedKeys(st.heap) {
 		cur := st.heap[k]
